@@ -5,12 +5,48 @@ import json, os, sys
 ROOT = os.path.dirname(os.path.dirname(os.path.abspath(__file__)))
 
 # property id -> (technique, level text, level note, design ref)
-CHECKS = {
+BUILT = ["C01","C02","C03","C04","C05","C06","C08","C09","C10"]
+
+X = "exploration"
+CHECKS_ALL = {
+ "C01": ("reference-model monitor: generated Archive II volumes (unique radial identities) through the real File::scan, compared with the generator's own radial list; panic monitor; ASan+libbz2 lane in thorough",
+         "Seeded volumes (1..255 elevation runs incl. single elevation, single radial, SAILS 1,2,1,3, runs of one; any block subset and gate counts; metadata frames of all type codes interleaved; 1..200 bzip2 LDM records cut at message boundaries, +/- prefixes) are converted by the real File::scan and compared element-wise with the radial list the generator built through the model's public constructors: nothing lost, duplicated, reordered or altered, sweeps are the maximal elevation runs, VCP is the first VOL block's. Holds on the K volumes observed, not beyond.",
+         "Trusts the hand-written ICD encoders (Appendix A) and libbz2's compressor used to build inputs; messages never straddle records; RPG header bytes zero.",
+         "DESIGN.md §2 C01"),
+ "C02": ("reference-model monitor: independent hand-written type-31 encoder with distinct value per field vs the real decoder, all 2^10 block subsets; Miri lane in thorough",
+         "Every case writes a type-31 message at explicit ICD offsets with a distinct value in every scalar field (so a transposition, endianness slip or wrong name->slot routing is visible), in all 2^10 block subsets, shuffled pointer order, permuted physical order with random-filled gaps, gate counts 0..65535 and word sizes 8/16, and requires every public field of the decoded message to equal what was written, presence iff encoded, gate bytes intact.",
+         "Trusts the offsets of DESIGN.md Appendix A. Duplicate block names / zero pointers inside the declared count are not generated.",
+         "DESIGN.md §2 C02"),
+ "C03": ("reference-model monitor over generated message streams and every truncation point; small-scope exhaustive sequences; solo-vs-stream decode comparison",
+         "Streams over all 256 type codes and contiguous type-31 messages (length 0..300) are decoded whole and compared entry by entry with each message decoded alone and with the generator's headers; all 2,801 sequences of length <=4 over a 7-symbol alphabet are enumerated; every byte cut of short streams and +/-40-byte neighbourhoods of every boundary of longer ones are classified: a fragment shorter than a header is ignored, a cut inside a body must be an error.",
+         "Type-31 messages are contiguous with the last-pointed block physically last (the statement's precondition).",
+         "DESIGN.md §2 C03"),
+ "C04": ("process-level monitors on hostile inputs: panic hook + catch_unwind, counting reader with a logical work budget (termination as bounded progress), per-thread counting allocator (peak <= const + linear); Miri lane in thorough",
+         "Prefixes of valid streams, 1-8 bit/byte/field mutations biased to headers and pointers, field-directed extremes (block count 65535, pointers backwards/overlapping/self-referential/out of range, unknown and non-UTF-8 block names, gates 65535, word size 0..255, cut count 52..65535, zone count 65535) and random bytes are run through every decoding entry point (all 256+ type codes for contents) and radial()/into_radial() of whatever decoded, under the panic, reader-work and allocator monitors.",
+         "Termination is decided on logical reader work (<= 64x an independent plain walk of the same bytes + 1 MiB), never on wall time; memory bound 64 MiB + 64 n; inputs whose plain walk exceeds 50 MiB are skipped and counted.",
+         "DESIGN.md §2 C04"),
+ "C05": ("reference-model monitor: generated containers (known payloads) through the real File/Record/Chunk API; ASan-instrumented libbz2 and valgrind memcheck lanes",
+         "Containers with arbitrary header bytes, 0..40 records, payloads 0 B..300 KiB of five kinds (random, constant, bzip2-looking, doubly compressed, repeating), plain bodies, +/- prefixes are checked for exact tiling, compressed() <=> BZ magic, byte-exact bzip2 round trip, the two error cases, header accessors, and chunk classification.",
+         "Trusts libbz2's compressor for building inputs (the decompressor is the code under test, also run under ASan/valgrind).",
+         "DESIGN.md §2 C05"),
+ "C06": ("panic monitor over exhaustive boundary lengths, every truncation point of valid files, corrupted prefixes and bit-flipped bzip2; ASan+libbz2 / valgrind lanes on the corrupted-bzip2 part",
+         "Every length 0..=64 x 12 content families, every truncation point of generated volumes/containers/chunks, a corrupted size prefix at any record, 1-16 bit flips inside bzip2 bodies and random bytes are wrapped as File, Record (owned/borrowed) and Chunk and driven through every public call of the statement including {:?}; any panic is a violation.",
+         "Termination has no logical-step hook here (libbz2 is native): a hang would trip the outer watchdog and be reported inconclusive, not as a verdict.",
+         "DESIGN.md §2 C06"),
  "C08": ("reference-model monitor (independent integer calendar) over an exhaustive enumeration of day counts, run through the real decoders; panic monitor for the out-of-range clause",
          "All 65,535 in-range day counts are driven through each of the seven public date-time accessors (via their real decoders) and compared with an independent integer calendar: instant, civil fields, strict monotonicity, decode-crate vs data-crate agreement. Exhaustive in d; t is sampled at the edges plus seeded values (all 1440 minutes on four days). Out-of-range fields are run under the panic monitor.",
          "Trusts the harness calendar (self-checked day by day over 66,000 days at start-up) and that the public decoders place the date/time fields where Appendix A says (checked separately by C02/C10/C12/C13).",
          "DESIGN.md §2 C08"),
+ "C09": ("reference-model monitor: exhaustive small-scope enumeration plus seeded sequences with unique radial identities against a 10-line run-splitter and a stable sort",
+         "All 9,841 elevation strings of length <=8 over three symbols and all 1,600 azimuth-list pairs of length <=3 are enumerated, then random sequences to 2,000 radials over elevation numbers 0..=255 and merge pairs with duplicated/unsorted/equal azimuths; every radial has a unique identity so loss, duplication, reordering and tie order are individually visible.",
+         "None beyond the model crate's public constructors.",
+         "DESIGN.md §2 C09"),
+ "C10": ("reference-model monitor: exhaustive enumeration of type codes, size values and corner count/number pairs through the real header decoder; panic monitor with overflow checks on",
+         "All 256 type codes (against a hand-written ICD table, distinctness and verbatim preservation), the six channel codes, all 65,536 size values x 64 corner (count, number) pairs plus sampled pairs, and random distinct-valued headers for the layout; every accessor must return, plain and unit-typed sizes must agree and equal the statement's rules.",
+         "ICD Table III transcribed by hand; the harness is built with overflow checks and debug assertions on.",
+         "DESIGN.md §2 C10"),
 }
+CHECKS = {k: v for k, v in CHECKS_ALL.items() if k in BUILT}
 
 BUILDING = "check not built yet in this commit (planned: see DESIGN.md §2); it is not claimed until its command exists and is silent on the unchanged tree"
 
